@@ -20,3 +20,23 @@ void st_mt2_guarded_wait(descent_trial* t) {
 void st_mt13_racy_store(descent_trial* t) {
 	t->state = RUN;
 }
+
+/* SP-1: a cached array pointer of a CHOLMOD factor read after a call that may move the arrays */
+#include <cholmod.h>
+long st_sp1_stale(cholmod_factor* L, cholmod_common* c) {
+	long* Li = (long*)(L->i);
+	cholmod_l_reallocate_column(0, 4, L, c);
+	return Li[0];
+}
+/* negative twin: reloaded */
+long st_sp1_reloaded(cholmod_factor* L, cholmod_common* c) {
+	long* Li = (long*)(L->i);
+	cholmod_l_reallocate_column(0, 4, L, c);
+	Li = (long*)(L->i);
+	return Li[0];
+}
+/* SP-2: field read through a released (nulled) object variable */
+double st_sp2_released(cholmod_dense* X, cholmod_common* c) {
+	cholmod_l_free_dense(&X, c);
+	return ((double*)(X->x))[0];
+}
